@@ -86,7 +86,7 @@ def Atom.allowsAllA (self o : Atom) : Bool :=
   if o.op == .eq then self.allowsV o.value
   else if o.op == .in_ && self.op == .in_ then strIn self.value o.value
   else if o.op == .nc && self.op == .nc then strIn o.value self.value
-  else if o.op == .nc && self.op == .ne then !strIn self.value o.value
+  else if o.op == .nc && self.op == .ne then strIn o.value self.value
   else self == o
 
 /-- `Constraint.allows_any(other)` for an atom `other`, after the `self._operator == "=="` early return -/
@@ -251,7 +251,7 @@ def Atom.allowsAnyS (self : Atom) (o : GS) : Bool :=
   else
     match o with
     | .atom o => self.allowsAnyA o
-    | .multi _ _ => self.op == .ne
+    | .multi _ _ => true     -- conservative
     | .any => true       -- `return other.is_any()`
     | .empty => false
 
@@ -259,13 +259,13 @@ def Atom.allowsAny (self : Atom) : GC → Bool
   | .s o => self.allowsAnyS o
   | .union ms =>
     if self.op == .eq then (GC.union ms).allowsV self.value
-    else self.op == .ne && ms.any (fun c => self.allowsAnyS c)
+    else ms.any (fun c => self.allowsAnyS c)
 
 def GS.allowsAnyS : GS → GS → Bool
   | .any, _ => true
   | .empty, _ => false
   | .atom a, o => a.allowsAnyS o
-  | .multi x cs, .atom o => if o.op == .eq then (GS.multi x cs).allowsV o.value else o.op == .ne
+  | .multi x cs, .atom o => if o.op == .eq then (GS.multi x cs).allowsV o.value else true
   | .multi _ _, .multi _ _ => true
   | .multi _ _, o => o.isAny
 
@@ -335,9 +335,15 @@ def Atom.intersectA (self o : Atom) : PyM GS :=
 /-- `MultiConstraint.intersect(other)` for an atom `other` (not overridden by `ExtraMultiConstraint`) -/
 def multiIntersectA (x : Bool) (cs : List Atom) (o : Atom) : PyM GS :=
   if cs.contains o then .ok (.multi x cs)
-  else if (cs.map (fun c => c.value)).contains o.value then .ok .empty
-  else if o.op == .eq && !(multiOps x).contains "==" then .ok (.atom o)
-  else mkMulti x (cs ++ [o])
+  else if o.op == .eq && !(multiOps x).contains "==" then
+    -- `other if self.allows(other) else EmptyConstraint()` (`other` is an `==` atom: `allows` cannot raise)
+    (if (GS.multi x cs).allowsV o.value then .ok (.atom o) else .ok .empty)
+  else
+    match o.invert with
+    | .error e => .error e
+    | .ok i =>
+      if cs.contains i then .ok .empty
+      else mkMulti x (cs ++ [o])
 
 /-- `op_values["=="] & op_values["!="]` non-empty, over `chain(self, other)` -/
 def eqNeClash (l : List Atom) : Bool :=
@@ -477,6 +483,9 @@ def Atom.unionA (self o : Atom) : PyM GC :=
         | .error e => .error e
         | .ok i => if i == o then .ok .any else .ok (.union [.atom self, .atom o])
 
+/-- `MultiConstraint._only_ne` -/
+def onlyNe (cs : List Atom) : Bool := cs.all (fun c => c.op == .ne)
+
 /-- `MultiConstraint.union` / `ExtraMultiConstraint.union` with an atom -/
 def multiUnionA (x : Bool) (cs : List Atom) (o : Atom) : PyM GC :=
   if x then
@@ -486,10 +495,14 @@ def multiUnionA (x : Bool) (cs : List Atom) (o : Atom) : PyM GC :=
     else .ok (.union [.multi x cs, .atom o])
   else
     if cs.contains o then .ok (.atom o)
+    else if !(onlyNe cs && (o.op == .eq || o.op == .ne)) then
+      (if o.op == .eq && (GS.multi x cs).allowsV o.value then .ok (.multi x cs)
+       else .ok (.union [.multi x cs, .atom o]))
     else if !(cs.map (fun c => c.value)).contains o.value then
       (if o.op == .ne then .ok .any else .ok (.multi x cs))
     else
       match cs.filter (fun c => c.value != o.value) with
+      | [] => .ok .any
       | [c] => .ok (.atom c)
       | l =>
         match mkMulti x l with
@@ -503,12 +516,17 @@ def multiUnionM (x : Bool) (cs : List Atom) (y : Bool) (ds : List Atom) : PyM GC
     else if subsetL ds cs then .ok (.multi y ds)
     else .ok (.union [.multi x cs, .multi y ds])
   else
-    let common := cs.filter (fun c => ds.contains c)
-    if common.isEmpty then .ok .any
+    if !(onlyNe cs && onlyNe ds) then
+      (if subsetL cs ds then .ok (.multi x cs)
+       else if subsetL ds cs then .ok (.multi y ds)
+       else .ok (.union [.multi x cs, .multi y ds]))
     else
-      match mkMulti x common with
-      | .error e => .error e
-      | .ok m => .ok (.s m)
+      let common := cs.filter (fun c => ds.contains c)
+      if common.isEmpty then .ok .any
+      else
+        match mkMulti x common with
+        | .error e => .error e
+        | .ok m => .ok (.s m)
 
 /-- `self.union(other)`, neither a union -/
 def GS.unionS : GS → GS → PyM GC
